@@ -30,14 +30,19 @@ type vhVec struct {
 	Follow string  `json:"follow"`
 	Phase  string  `json:"phase"`
 	Type   string  `json:"type"`
+	Mirror bool    `json:"mirror"` // hostile answer: the local endpoint offers sections of the same kinds first
 	// candidate vectors
 	Foundation, Component, Proto, Prio, Addr, Port, Typ, Tail, Line, Prefix string
-	MidC                                                                   string `json:"mid"`
+	MidC                                                                    string `json:"mid"`
 }
 
 const vhFp = "sha-256 0F:74:31:25:CB:A2:13:EC:28:6F:6D:2C:61:FF:5D:C2:BC:B9:DB:3D:98:14:8D:1A:BB:EA:33:0C:A4:60:A8:8E"
 
-func vhSDP(v vhVec, ufrag, pwd, fp string) string {
+func vhSDP(v vhVec, ufrag, pwd, fp string) string { return vhSDPMids(v, ufrag, pwd, fp, nil) }
+
+// vhSDPMids: with mids given, section i carries mids[i] (the mid of the offer it answers) unless its
+// mid class says otherwise.
+func vhSDPMids(v vhVec, ufrag, pwd, fp string, given []string) string {
 	var b strings.Builder
 	b.WriteString("v=0\r\no=- 4596489990601351948 " + strconv.Itoa(2+len(v.Secs)) + " IN IP4 127.0.0.1\r\ns=-\r\nt=0 0\r\n")
 	mids := []string{}
@@ -47,6 +52,9 @@ func vhSDP(v vhVec, ufrag, pwd, fp string) string {
 			return "0"
 		case "empty":
 			return ""
+		}
+		if i < len(given) {
+			return given[i]
 		}
 		return strconv.Itoa(i)
 	}
@@ -86,7 +94,11 @@ func vhSDP(v vhVec, ufrag, pwd, fp string) string {
 		if v.Fp == "media" {
 			b.WriteString(fpLine)
 		}
-		b.WriteString("a=setup:actpass\r\n")
+		if v.Type == "offer" || !v.Mirror {
+			b.WriteString("a=setup:actpass\r\n")
+		} else {
+			b.WriteString("a=setup:active\r\n")
+		}
 		if s.Mid != "absent" {
 			b.WriteString("a=mid:" + midOf(i, s) + "\r\n")
 		}
@@ -133,6 +145,8 @@ func vhSDP(v vhVec, ufrag, pwd, fp string) string {
 			b.WriteString("a=ssrc:1000 cname:c\r\n")
 		case "two":
 			b.WriteString("a=msid:s t\r\na=ssrc:1000 msid:s t\r\na=ssrc:1001 msid:s t\r\n")
+		case "two-tracks": // two different tracks announced in one section
+			b.WriteString("a=ssrc:1000 cname:c\r\na=ssrc:1000 msid:s t\r\na=ssrc:4242 cname:zz\r\na=ssrc:4242 msid:zz yy\r\n")
 		case "nonnumeric":
 			b.WriteString("a=ssrc:abc cname:c\r\na=ssrc:\r\na=ssrc:12x msid:s t\r\n")
 		case "overflow":
@@ -172,6 +186,22 @@ func vhSDP(v vhVec, ufrag, pwd, fp string) string {
 		}
 	}
 	return b.String()
+}
+
+// vhOfferSections lists (kind, mid) of the m-sections of a description, in order.
+func vhOfferSections(sdpText string) [][2]string {
+	out := [][2]string{}
+	for _, part := range strings.Split(sdpText, "\r\nm=")[1:] {
+		kind := strings.SplitN(part, " ", 2)[0]
+		mid := ""
+		for _, line := range strings.Split(part, "\r\n") {
+			if strings.HasPrefix(line, "a=mid:") {
+				mid = strings.TrimPrefix(line, "a=mid:")
+			}
+		}
+		out = append(out, [2]string{kind, mid})
+	}
+	return out
 }
 
 func vhCandidate(v vhVec) ICECandidateInit {
@@ -338,13 +368,56 @@ func vhRun(t *testing.T, v vhVec) vkM { //nolint:cyclop
 		}
 	}
 	sd := SessionDescription{Type: vhType(v.Type), SDP: vhSDP(v, ufrag, pwd, fp)}
-	if v.Type != "offer" && v.Phase == "first" { // an answer needs a local offer first
+	if v.Type != "offer" && v.Mirror {
+		// the local endpoint offers what the hostile answer will answer: a receiving transceiver per media
+		// section, a data channel for an application section
+		for i, s := range v.Secs {
+			switch s.Kind {
+			case "audio", "video":
+				dir := RTPTransceiverDirectionRecvonly
+				if i%2 == 1 {
+					dir = RTPTransceiverDirectionSendrecv
+				}
+				k := RTPCodecTypeAudio
+				if s.Kind == "video" {
+					k = RTPCodecTypeVideo
+				}
+				_, _ = pc.AddTransceiverFromKind(k, RTPTransceiverInit{Direction: dir})
+			case "application":
+				_, _ = pc.CreateDataChannel("x", nil)
+			}
+		}
+		if v.Phase == "first" && len(pc.GetTransceivers()) == 0 {
+			_, _ = pc.CreateDataChannel("x", nil)
+		}
+		if o, err := pc.CreateOffer(nil); err == nil {
+			_ = pc.SetLocalDescription(o)
+			// answer section by section: the next unused vector section of the offered kind (a plain one if
+			// there is none), with the offered mid
+			pool := append([]vhSec{}, v.Secs...)
+			aligned, mids := []vhSec{}, []string{}
+			for _, m := range vhOfferSections(o.SDP) {
+				pick := vhSec{Kind: m[0], Mid: "ok", Dir: "sendonly", Ssrc: "one-msid", Group: "none", Rid: "none",
+					Rtpmap: "ok", Extmap: "ok", Fmtp: "ok", Cand: "none"}
+				for j, s := range pool {
+					if s.Kind == m[0] {
+						pick = s
+						pool = append(pool[:j], pool[j+1:]...)
+						break
+					}
+				}
+				aligned = append(aligned, pick)
+				mids = append(mids, m[1])
+			}
+			v.Secs = aligned
+			sd.SDP = vhSDPMids(v, ufrag, pwd, fp, mids)
+		}
+	} else if v.Type != "offer" && v.Phase == "first" { // an answer needs a local offer first
 		_, _ = pc.CreateDataChannel("x", nil)
 		if o, err := pc.CreateOffer(nil); err == nil {
 			_ = pc.SetLocalDescription(o)
 		}
-	}
-	if v.Type != "offer" && v.Phase == "connected" {
+	} else if v.Type != "offer" && v.Phase == "connected" {
 		if o, err := pc.CreateOffer(nil); err == nil {
 			_ = pc.SetLocalDescription(o)
 		}
